@@ -96,6 +96,10 @@ def _one(args):
                 pass
             for mi in mk:
                 script[(mi, 0)] = [list(a) for a in acts]
+        else:
+            # the other strategies only consult their runner accounting (a context without any order)
+            for mi in mk:
+                script[(mi, 0)] = [["W", 1, 0.5 if mtype == "ASIAN_HANDICAP" else 0]]
         strategies.append(dict(script=script, markets=list(mk), kw=dict(max_order_exposure=None, max_selection_exposure=None, max_live_trade_count=5), name="S%d" % k, client=(k % n_clients)))
     h = _mk_hooks()
     L._install_created_tracking()
@@ -211,7 +215,7 @@ def _dedup(vs, per_key=1):
 
 
 # ---- live mode (E2): closure through the real queue, removal only after an hour, recorder mode ----
-LIVE_ALPHA = (("open", 0), ("close", 0), ("open", 1), ("close", 1), ("tick", 59), ("tick", 61))
+LIVE_ALPHA = (("open", 0), ("close", 0), ("open", 1), ("close", 1), ("tick", 59), ("tick", 61), ("poll",))
 
 
 def _live_one(seq):
@@ -239,16 +243,50 @@ def _live_one(seq):
         # the initial books dispatched at start-up created both markets open
         model = {m: dict(present=True, closed=False, closed_at=None) for m in mids}
         exp_calls = {0: 0, 1: 0, 2: 0}
+        w.api.session = w.session  # the closure worker calls the API outside the execution pool
+        fetched = {m: {"ClearedOrdersEvent": 0, "ClearedMarketsEvent": 0} for m in mids}  # since the flags were last reset
         for ev in seq:
             if ev[0] == "tick":
                 w.clock_ms += ev[1] * 60_000
                 w.set_clock()
+                continue
+            if ev[0] == "poll":
+                # the real closure worker: for every closed market fetch the cleared orders and the market summary
+                # once per client (the cleared flags remember what was fetched; a re-open resets them)
+                from flumine import worker as _worker
+
+                w.clock_ms += 1000
+                w.set_clock()
+                _worker.poll_market_closure({}, fw)
+                got = []
+                while not fw.handler_queue.empty():
+                    got.append(fw.handler_queue.get())
+                for e in got:
+                    nm = type(e).__name__
+                    mid_e = getattr(e.event, "market_id", None) or (e.event.orders[0].market_id if e.event.orders else None)
+                    if nm in ("ClearedOrdersEvent", "ClearedMarketsEvent") and mid_e in fetched:
+                        fetched[mid_e][nm] += 1
+                    w.dispatch(e)
+                counts["live_polls"] = counts.get("live_polls", 0) + 1
+                for m2, s2_ in model.items():
+                    if s2_["present"] and s2_["closed"] and m2 in {m.market_id for m in fw.markets}:
+                        counts["clause:C20.c"] = counts.get("clause:C20.c", 0) + 1
+                        counts["live_polled_closed_markets"] = counts.get("live_polled_closed_markets", 0) + 1
+                        if fetched[m2] != {"ClearedOrdersEvent": 1, "ClearedMarketsEvent": 1}:
+                            which = "cleared market count" if fetched[m2]["ClearedMarketsEvent"] != 1 else "cleared orders count"
+                            out.append(core.v("C20.c", ("live", "reopen" if s2_.get("episodes", 0) > 1 else "first", which, "-"), "after %s: closed market %s polled: %s fetched since its flags were last reset (expected one of each per client)" % ([list(x) for x in seq[: seq.index(ev) + 1]], m2, fetched[m2]), case))
+                if out:
+                    break
                 continue
             mid = mids[ev[1]]
             w.clock_ms += 1000
             w.set_clock()
             now = w.clock_ms
             st_ = model[mid]
+            # any book for a closed market re-opens it (flags reset); a CLOSED book then closes it again
+            fetched[mid] = {"ClearedOrdersEvent": 0, "ClearedMarketsEvent": 0}
+            if ev[0] == "close":
+                st_["episodes"] = st_.get("episodes", 0) + 1
             if ev[0] == "open":
                 w.books[mid] = w._make_book(mid, "OPEN")
                 w.dispatch(w._book_event(mid))
@@ -432,7 +470,13 @@ def run(tier):
 
 
 def replay(rep):
-    a = rep["case"]["args"]
+    c = rep["case"]
+    if "live" in c or "recorder" in c:
+        r = _live_one([tuple(e) for e in c["live"]]) if "live" in c else _recorder_one(tuple(c["recorder"]))
+        for d in r["violations"]:
+            print(d["key"], d["detail"])
+        return 1 if r["violations"] else 0
+    a = c["args"]
     r = _one((tuple(tuple(s) for s in a[0]), a[1], a[2], a[3], a[4], a[5]))
     for d in r["violations"]:
         print(d["key"], d["detail"])
